@@ -592,7 +592,9 @@ class Interp:
         m = getattr(self, "e_" + type(e).__name__, None)
         if m is None:
             self.unsupported[type(e).__name__] = self.unsupported.get(type(e).__name__, 0) + 1
-            return Unk(self.fresh("expr:" + type(e).__name__))
+            # never guess what unknown syntax does: the run is analysis-broken, not a pass and not a violation
+            raise AnalysisError(f"expression syntax the interpreter does not implement: {type(e).__name__} at "
+                                f"{fr.qualname} line {getattr(e, 'lineno', '?')}")
         return m(e, fr)
 
     def e_Constant(self, e, fr):
@@ -1806,7 +1808,8 @@ class Interp:
         m = getattr(self, "s_" + type(s).__name__, None)
         if m is None:
             self.unsupported[type(s).__name__] = self.unsupported.get(type(s).__name__, 0) + 1
-            return
+            raise AnalysisError(f"statement syntax the interpreter does not implement: {type(s).__name__} at "
+                                f"{fr.qualname} line {getattr(s, 'lineno', '?')}")
         m(s, fr)
 
     def s_Expr(self, s, fr):
